@@ -629,6 +629,8 @@ type HarnessResult struct {
 	Alt        map[string][]PathResult // further paths with the same verdict (other counterexamples)
 	Aborts     []PathResult
 	Queries    int
+	OneShots   int // queries re-run one-shot (fresh z3 + cvc5 processes) after the incremental core gave up
+	OneShotOK  int // ... of which decided
 	SolverTime time.Duration
 	Steps      int64
 	Inconc     int
@@ -691,6 +693,7 @@ func (ex *Explorer) Run(fn *ssa.Function) *HarnessResult {
 				mu.Unlock()
 
 				q0, t0 := solver.Queries, solver.Time
+				o0, d0 := solver.OneShots, solver.OneShotDecided
 				res := in.RunPath(fn, item, ex.Known, hr.Name)
 
 				mu.Lock()
@@ -700,6 +703,8 @@ func (ex *Explorer) Run(fn *ssa.Function) *HarnessResult {
 				active--
 				hr.Paths++
 				hr.Queries += solver.Queries - q0
+				hr.OneShots += solver.OneShots - o0
+				hr.OneShotOK += solver.OneShotDecided - d0
 				hr.SolverTime += solver.Time - t0
 				hr.Steps += res.Steps
 				hr.Inconc += res.Inconc
